@@ -621,4 +621,12 @@ class Folder:
         if dotted == "re.escape":
             if len(args) == 1 and isinstance(args[0], str):
                 return re.escape(args[0])
+        if dotted in ("itertools.chain", "itertools.chain.from_iterable") and not kwargs:
+            # over folded constant sequences: the concatenation (a list stands for the one-shot iterator; the hazard rule watches its uses)
+            seqs = args if dotted == "itertools.chain" else (list(args[0]) if len(args) == 1 and isinstance(args[0], (list, tuple)) else None)
+            if seqs is not None and all(isinstance(a, (list, tuple, str)) for a in seqs):
+                out = []
+                for a in seqs:
+                    out.extend(a)
+                return out
         raise Unfoldable("external call %s" % dotted)
